@@ -2,7 +2,11 @@
 worktree and the harness is pointed at it (PYTHONPATH + FFCX_REPO).
 
 usage: python -m harness.seedcheck <dir with patch.diff> <Cxx> [<Cyy> …]
+       python -m harness.seedcheck --matrix            # every /verif/seeded/<id> against its property's check;
+                                                       # writes seeded/RESULTS.json and seeded/RESULTS.md
 prints one line per check: property, exit code, VIOLATION/KNOWN lines.
+(The documented way to test a seed against the real layout is still `git -C /repo apply`, run, `git -C /repo checkout -- .`;
+this script does the same on a shadow tree so that /repo is never modified while other jobs use it.)
 """
 import json
 import os
@@ -15,10 +19,9 @@ from pathlib import Path
 VERIF = Path(__file__).resolve().parent.parent
 
 
-def main():
-    seed = Path(sys.argv[1]).resolve()
-    checks = sys.argv[2:]
-    wt = Path(f"/tmp/mutval/{seed.parent.parent.name}_{seed.name}_{os.getpid()}")
+def run_seed(seed, checks, tier="quick"):
+    seed = Path(seed).resolve()
+    wt = Path(f"/tmp/mutval/{seed.name}_{os.getpid()}")
     wt.parent.mkdir(parents=True, exist_ok=True)
     subprocess.run(["git", "-C", "/repo", "worktree", "add", "--detach", str(wt), "HEAD"], check=True, capture_output=True)
     results = {}
@@ -27,34 +30,80 @@ def main():
         if r.returncode != 0:
             r = subprocess.run(["git", "-C", str(wt), "apply", "--3way", str(seed / "patch.diff")], capture_output=True, text=True)
         if r.returncode != 0:
-            print("PATCH DOES NOT APPLY:", r.stderr[:500])
-            return 2
+            return {"_error": "PATCH DOES NOT APPLY: " + r.stderr[:500]}
         env = dict(os.environ)
         env["FFCX_REPO"] = str(wt)
         env["PYTHONPATH"] = f"{wt}:{env.get('PYTHONPATH', '')}"
         for c in checks:
             t0 = time.time()
-            p = subprocess.run(["./check", c, "--tier", "quick"], cwd=VERIF, env=env, capture_output=True, text=True, timeout=3600)
+            p = subprocess.run(["./check", c, "--tier", tier], cwd=VERIF, env=env, capture_output=True, text=True, timeout=7200)
             lines = [l for l in p.stdout.splitlines() if l.startswith(("VIOLATION", "KNOWN-FINDING", "[" + c))]
-            detail = ""
+            keys, broken = [], []
             for l in lines:
                 if l.startswith("VIOLATION") and "replay=" in l:
                     rp = l.split("replay=")[1].split()[0]
                     try:
                         d = json.loads(Path(rp).read_text())
-                        keys = [v["key"] for v in d.get("violations", [])][:6]
-                        broken = [b.get("kind", "") + ":" + str(b.get("what", b.get("module", "")))[:60] for b in d.get("broken", [])][:4]
-                        detail = f" keys={keys} broken={broken}"
+                        keys = sorted({v["key"] for v in d.get("violations", [])})
+                        broken = sorted({b.get("kind", "") + ":" + str(b.get("what", b.get("module", "")))[:80] for b in d.get("broken", [])})
                     except Exception:
                         pass
-            results[c] = p.returncode
-            print(f"{c}: exit={p.returncode} wall={time.time() - t0:.0f}s {' | '.join(l[:140] for l in lines)}{detail}")
-            sys.stdout.flush()
+            results[c] = {"exit": p.returncode, "wall_s": round(time.time() - t0), "violation_keys": keys[:12], "n_keys": len(keys),
+                          "broken": broken[:6], "no_failing_input_found": any("no-failing-input-found" in l for l in lines),
+                          "lines": [l[:200] for l in lines]}
     finally:
         subprocess.run(["git", "-C", "/repo", "worktree", "remove", "--force", str(wt)], capture_output=True)
         shutil.rmtree(wt, ignore_errors=True)
-        # generated translator tables were rewritten from the mutated tree: restore the committed ones
+        # generated translator tables / evidence were rewritten from the mutated tree: restore the committed ones
         subprocess.run(["git", "-C", str(VERIF), "checkout", "--", "lean/FfcxModel/Generated", "evidence"], capture_output=True)
+    return results
+
+
+# checks that should ALSO see a seed (besides the one of its property)
+ALSO = {"C10_m2": ["C13"], "C08_m1": ["C05"], "C08_m2": ["C03"], "C12_m2": ["C13"], "C13_m2": ["C12"], "C17_m2": ["C01"], "C14_m2": ["C15"],
+        "C04_m1": ["C05"], "C01_m2": ["C02"]}
+
+
+def matrix(only=None):
+    out = {}
+    res_file = VERIF / "seeded" / "RESULTS.json"
+    if res_file.exists():
+        out = json.loads(res_file.read_text())
+    for d in sorted((VERIF / "seeded").iterdir()):
+        if not (d / "patch.diff").exists() or (only and d.name not in only):
+            continue
+        prop = d.name.split("_")[0]
+        checks = [prop] + ALSO.get(d.name, [])
+        r = run_seed(d, checks)
+        out[d.name] = r
+        print(d.name, {c: (v["exit"], v["violation_keys"][:3], v["broken"][:2]) if isinstance(v, dict) else v for c, v in r.items()}, flush=True)
+        res_file.write_text(json.dumps(out, indent=1, sort_keys=True))
+    lines = ["| seed | changed file(s) | check | exit | how it was caught |", "|---|---|---|---|---|"]
+    for name, r in sorted(out.items()):
+        try:
+            meta = json.loads((VERIF / "seeded" / name / "meta.json").read_text())
+        except Exception:
+            meta = {}
+        files = ", ".join(f.replace("ffcx/", "") for f in meta.get("files_touched", []))
+        for c, v in r.items():
+            if not isinstance(v, dict):
+                lines.append(f"| {name} | {files} | {c} | - | {v} |")
+                continue
+            how = "; ".join(v["violation_keys"][:3]) or ("; ".join(v["broken"][:2]) + (" (no failing input found)" if v["no_failing_input_found"] else "")) or "not caught"
+            lines.append(f"| {name} | {files} | {c} | {v['exit']} | {how[:200]} |")
+    (VERIF / "seeded" / "RESULTS.md").write_text("\n".join(lines) + "\n")
+
+
+def main():
+    if sys.argv[1] == "--matrix":
+        matrix(set(sys.argv[2:]) or None)
+        return 0
+    r = run_seed(sys.argv[1], sys.argv[2:])
+    if "_error" in r:
+        print(r["_error"])
+        return 2
+    for c, v in r.items():
+        print(f"{c}: exit={v['exit']} wall={v['wall_s']}s {' | '.join(v['lines'])[:400]} keys={v['violation_keys'][:6]} broken={v['broken'][:4]}")
     return 0
 
 
